@@ -398,7 +398,9 @@ def replace_matching_item(
             anon_val = prefix + _anonymize_value(
                 match.group(sensitive_item_num), pwd_lookup, reserved_words, salt
             )
-            output_line = compiled_re.sub(anon_val, output_line)
+            # Use a function so the replacement is taken literally (not as a template
+            # in which backslashes from the config line would be interpreted)
+            output_line = compiled_re.sub(lambda _: anon_val, output_line)
 
         # If any matches existed in this regex group, stop processing more regexes
         if match_found:
